@@ -9,9 +9,12 @@ def select(behaviours, thorough):
     crashy = [b for b in behaviours if any(s["a"] == "Crash" for s in b["steps"])]
     ins = [b for b in crashy if any(s["a"] == "Crash" and s.get("at") == "inserted" for s in b["steps"])]
     mrk = [b for b in crashy if any(s["a"] == "Crash" and s.get("at") == "marked" for s in b["steps"])]
+    bef = [b for b in crashy if any(s["a"] == "Crash" and s.get("at") == "before_insert" for s in b["steps"])]
     ins.sort(key=lambda b: -b["ncerts"])
     mrk.sort(key=lambda b: -b["ncerts"])
-    return ins[: n // 2] + mrk[: n - n // 2]
+    bef.sort(key=lambda b: -b["ncerts"])
+    k = n // 3
+    return ins[:k] + mrk[:k] + bef[: n - 2 * k]
 
 
 def run(tier, seed):
